@@ -98,10 +98,11 @@ impl Tp {
 
 /// What the response buffer holds before every call. The I/O providers reuse
 /// one buffer for all requests of a thread or connection, so its previous
-/// contents are arbitrary; octets that look like the first octet of a forward
-/// compression pointer make any read of unwritten buffer contents loud
-/// (zeroes would read as a harmless root label).
-pub const RESP_POISON: u8 = 0xc1;
+/// contents are arbitrary. All-ones is the complement of the zero-filled
+/// buffers of unit tests: every header flag that is not written explicitly
+/// shows up as set, and any read of unwritten buffer contents as a name meets
+/// a forward compression pointer (zeroes would read as a harmless root label).
+pub const RESP_POISON: u8 = 0xff;
 
 thread_local! {
     static RESP_BUF: std::cell::RefCell<Vec<u8>> = std::cell::RefCell::new(vec![RESP_POISON; 65535]);
